@@ -59,7 +59,9 @@ func ruleS1(c *Ctx) {
 									terms = append(terms, term{le.norm(ia.Index), w})
 									// digit check on this very cell at the store
 									bs := env.byteSetOf(u, b)
-									return bs != nil && bs.min() >= '0' && bs.max() <= '9'
+									// exactly the ten digits: a narrower test would turn a reply whose status has
+									// that digit (e.g. the 9 of 489) into a request line
+									return bs != nil && bs.min() == '0' && bs.max() == '9' && bs.count() == 10
 								}
 							}
 						}
@@ -87,7 +89,7 @@ func ruleS1(c *Ctx) {
 					}
 				}
 			}
-			c.check(okDigits, "S1", "digits-checked", st.Pos(), "each byte entering the status arithmetic is in '0'..'9' at that point (exact byte sets of the same cells)")
+			c.check(okDigits, "S1", "digits-checked", st.Pos(), "each byte entering the status arithmetic is exactly in '0'..'9' at that point - all ten digits, nothing else (exact byte sets of the same cells)")
 			c.check(okPoly, "S1", "polynomial", st.Pos(), "Status = 100*d0 + 10*d1 + d2 over three consecutive bytes")
 			lo, hi := env.rng(st.Val, b)
 			c.check(hi.Cmp(bigOf(999)) <= 0 && lo.Sign() >= 0 && len(env.wraps) == 0, "S1", "range", st.Pos(), "status value range "+rangeStr(lo, hi)+" fits uint16 without wrap")
